@@ -145,8 +145,14 @@ class Outcome:
 
     # -- conformance -----------------------------------------------------------------------
     def conform(self, modname: str, trace_module: str, jobs: list, *, nontrivial=None, canon=None,
-                chunk=1500, procs=NPROC, par=8, label="", heap="3g"):
-        """Replay jobs on rdflib, validate with TLC, classify."""
+                chunk=1500, procs=NPROC, par=8, label="", heap="3g", slab=8000):
+        """Replay jobs on rdflib, validate with TLC, classify.  Long job lists go through in slabs: the recorded traces of one slab are
+        dropped before the next is replayed (the thorough tier of C02 once held 32 GB of them)."""
+        if len(jobs) > slab:
+            for i in range(0, len(jobs), slab):
+                self.conform(modname, trace_module, jobs[i:i + slab], nontrivial=nontrivial, canon=canon, chunk=chunk, procs=procs, par=par,
+                             label="%s[%d..]" % (label, i), heap=heap, slab=slab)
+            return
         if not jobs:
             return
         t0 = time.time()
